@@ -73,7 +73,8 @@ def gen(i, R, tier, noninterference=True):
         elif ch == "cli":
             ops.append({"op": "set_cli", "patterns": pats})
         else:
-            ops.append({"op": "set_gitignore", "patterns": pats})
+            ops.append({"op": "set_gitignore", "patterns": pats, "final_eol": rng.random() < 0.6,
+                        "eol": "\r\n" if rng.random() < 0.15 else "\n"})
     if swarm["distractors"]:
         # nested .gitignore / .codelimit.yml files must have no effect
         for d in rng.sample(G.DISTRACTOR_DIRS, rng.randint(1, 2)):
